@@ -84,6 +84,31 @@ def value_cases(rng, tier):
                 e = ("call", fi, tuple(args))
                 ctxs = [lg.gen_ctx(rng, sch, p_absent=p) for p in (0.0, 0.5, 1.0)]
                 out.append(lg.exec_case(sch, e, ctxs, lg.Layout(rng), kind="exec-value")[0])
+    # (4) a mapped call applied to the result of another mapped call, f(g(xs[*])[*]): the inner result is an array
+    #     the engine owns; arrays with elements the outer function drops at the start, in the middle and at the end
+    #     (results in order, the dropped ones gone), also indexed and compared
+    bytes_fns = [(fi, lib) for fi, (fname, lib) in enumerate(sch.fns)
+                 if lg.LIB.get(lib) and lg.LIB[lib][0] == [("field", "bytes")] and not lg.LIB[lib][1]]
+    strs = f("strs")
+    shapes = [[b"a", b"", b"b", b"c"], [b"", b"a", b"", b"b"], [b"a", b"b", b""], [b"", b""], [b"x", b"", b"", b"y", b"z", b""],
+              [b"A", b"", b"b", b"", b"C", b"d", b"", b"e"], [], [b"q"]]
+    for fi, flib in bytes_fns:
+        for gi, glib in bytes_fns:
+            if lg.LIB[glib][2] != "bytes":
+                continue
+            inner = ("call", gi, (("ai", ("field", strs, "each")),), "each")
+            for tail in ((), (("a", 0),), (("a", 1),), (("a", 2),)):
+                e = ("call", fi, (("ai", inner),)) + tuple(tail)
+                ctxs = []
+                for sh in shapes:
+                    c = lg.gen_ctx(rng, sch, p_absent=0.0)
+                    vals = list(c[1][1:])
+                    vals[strs] = ("arr", "bytes") + tuple(("s", b) for b in sh)
+                    ctxs.append(lg.make_ctx(sch, vals, list(c[2][1:])))
+                try:
+                    out.append(lg.exec_case(sch, e, ctxs, lg.Layout(rng), kind="exec-value")[0])
+                except Exception:
+                    pass
     g = lg.Gen(rng, sch, features=("index", "each", "call", "oneof", "vec", "mapbool"), max_depth=3)
     n = 600 if tier == "quick" else 10000
     made = 0
